@@ -382,14 +382,15 @@ theorem readNameBody_hash (fuel len : Nat) (rest : Bytes) :
 /-- `tryHex` on a good state standing on `#` -/
 theorem tryHex_good (s : SB) (gs : Good d s) (rest : Bytes) (hv : view d s = 35 :: rest) :
     match tryHexSpec rest with
-    | some (v, rest') => (tryHexBuf src s).2 = some v ∧ Good d (tryHexBuf src s).1 ∧ view d (tryHexBuf src s).1 = rest'
-    | none => (tryHexBuf src s).2 = none ∧ Good d (adv 1 (tryHexBuf src s).1) ∧ view d (adv 1 (tryHexBuf src s).1) = rest := by
+    | some (v, rest') => (tryHexBuf src s).2 = .ok (some v) ∧ Good d (tryHexBuf src s).1 ∧ view d (tryHexBuf src s).1 = rest'
+    | none => (tryHexBuf src s).2 = .ok none ∧ Good d (adv 1 (tryHexBuf src s).1) ∧ view d (adv 1 (tryHexBuf src s).1) = rest := by
   obtain ⟨s1, hp, g1, v1, hadv⟩ := peek_adv_good g 3 (by decide) s gs
   have h1 := hadv 1 (by rw [hv]; simp)
   rw [hv] at h1
   simp only [List.drop_succ_cons, List.drop_zero] at h1
   unfold tryHexBuf
   rw [hp, hv]
+  simp only []
   match rest, hadv with
   | [], _ => simp only [tryHexSpec, List.take_succ_cons, List.take_nil]; exact ⟨trivial, h1⟩
   | [h], _ => simp only [tryHexSpec, List.take_succ_cons, List.take_nil]; exact ⟨trivial, h1⟩
